@@ -73,6 +73,18 @@ type Node struct {
 	Declared *int    `json:"declared,omitempty"`
 	// NoPad suppresses the padding bytes after this AVP (malformed tails).
 	NoPad bool `json:"nopad,omitempty"`
+	// Fill > 0: the payload continues with Fill further bytes of a fixed non-zero pattern
+	// (keeps cases with payloads of megabytes small in their JSON form).
+	Fill int `json:"fill,omitempty"`
+}
+
+// FillBytes is the pattern behind Node.Fill.
+func FillBytes(n int) []byte {
+	b := make([]byte, n)
+	for i := range b {
+		b[i] = byte(i*7 + 3)
+	}
+	return b
 }
 
 // HeaderSize is 12 with the V flag, 8 without.
@@ -86,6 +98,9 @@ func (n *Node) HeaderSize() int {
 // Body returns the unpadded payload bytes of the node.
 func (n *Node) Body() []byte {
 	if !n.Group {
+		if n.Fill > 0 {
+			return append(append(make([]byte, 0, len(n.Payload)+n.Fill), n.Payload...), FillBytes(n.Fill)...)
+		}
 		return n.Payload
 	}
 	var b []byte
